@@ -1,2 +1,2 @@
 SPECIFICATION Spec
-INVARIANTS GeneratorAgrees RoundTrips LawsHold Emit
+INVARIANTS GeneratorAgrees RoundTrips Judge
